@@ -8,6 +8,7 @@ from harness.common import (cf, cflist, cnat, cpairs_nat, differential, hexf, un
 
 ID = "C05"
 IMPORTS = "From Evo Require Import Num Sync.\n"
+COQ_TARGETS = ["theories/SyncProofs.vo"]
 TRUSTED = ["model Evo.Sync written by hand from evo/core/sync.py; tie = differential run (bit-exact)",
            "numpy elementwise +,-,abs,argmin assumed IEEE-754 binary64 / first-minimum (measured on every case)",
            "PoseTrajectory3D.reduce_to_ids is exercised, not modelled beyond 'select by index'"]
